@@ -320,7 +320,7 @@ pub fn test_case(case: &TrainCase) -> TestResult {
 pub fn run(rep: &mut Report) {
     liblinear::toggle_liblinear_stdout_output(false);
     let _guard = util::redirect_output("/verif/target/C12-train-output.log");
-    let n = rep.n(15000, 150000);
+    let n = rep.n(15000, 750000);
     rep.run_prop(
         "tag-models",
         "generated tagged corpora (tokens with 0-3 categories, absent tags, ambiguous tags, \
